@@ -2,6 +2,7 @@
 C14 — header import leaves the stores equal to the file, or consistent on failure.
 -/
 import Neutrino.Lemmas.Import
+import Neutrino.Gen.Import
 namespace Neutrino.Import
 
 /-- pre-state: both stores healthy (tip = last entry) -/
@@ -254,6 +255,24 @@ theorem C14_failure_partial (F : File) (cfg : Cfg) (st : Stores) (e : Err) (hh :
     have hu := usable_mk B Fl hl1 hl2
     simp only [failContentOk, hu, e3, e4, Nat.sub_self, List.take_zero, List.append_nil, beq_self_eq_true, heq,
       Nat.le_refl, decide_true, Bool.or_true, Bool.true_or, Bool.and_self, Nat.lt_irrefl, decide_false, Bool.false_or]
+
+/-- The facts regenerated from chainimport/headers_import.go on this run that the
+model transcribes: `processBatch` hands `batchStart` — which `appendNewHeaders`
+initialises with the target `startHeight` and advances by `batchEnd + 1` — to both
+iterators' `ReadBatch` as the start INDEX, with the block iterator's end index and
+batch size, while the iterators were created over source INDICES; and
+`writeHeadersToTargetStores` writes the block store first, then the filter store,
+and rolls the block store back by `len(blockHeaders)` in the filter-failure branch.
+(A repair of F7 changes the first facts and forces `processBatch` in the model,
+and with it `C14_success_counterexample`, to be revisited.) -/
+theorem C14_source_facts :
+    Gen.Import.blockReadArgs = ["batchStart", "blockIter.GetEndIndex()", "blockIter.GetBatchSize()"] ∧
+    Gen.Import.filterReadArgs = ["batchStart", "blockIter.GetEndIndex()", "blockIter.GetBatchSize()"] ∧
+    Gen.Import.loopStart = "startHeight" ∧ Gen.Import.loopNext = "batchEnd + 1" ∧
+    Gen.Import.iteratorRanges = ["sourceStartIdx,sourceEndIdx", "sourceStartIdx,sourceEndIdx"] ∧
+    Gen.Import.writeOrder = ["block.WriteHeaders", "filter.WriteHeaders", "block.RollbackBlockHeaders"] ∧
+    Gen.Import.rollbackInFilterFailure = true ∧
+    Gen.Import.rollbackCount = "uint32(len(blockHeaders))" := by decide
 
 /-! Non-vacuity: concrete, non-trivial instances meet the hypotheses and exercise
 batching with a non-dividing batch size, the rollback and the overlap path. -/
